@@ -5,18 +5,37 @@ import RsMatterVerif.Model.ChunkLive
 # The event section over a queue that changes between the chunks (C14, audit concern 3)
 
 `Model/ChunkLive.lean`: `evLoopLive` runs the unchanged per-fetch step `pass` on a buffer that is a
-different one at every fetch.  Here:
-* `pass_split` — what ONE fetch does, declaratively, on a buffer with ascending event numbers: the
-  events of the buffer that are selected and lie behind the cursor (`pendingAt`) are split into the
-  ones written (a prefix) and the ones still pending at the new cursor;
-* `FetchOk` / `LiveSpec` — the specification of a whole live answer as a chain of such fetches, written
-  from the property text (per fetch, relative to the queue AT THAT FETCH), and its consequences
-  (`LiveSpec.increasing`, `LiveSpec.sound`, `LiveSpec.complete`, `FetchOk.dichotomy`);
-* `evLoopEnv_spec`, `evLoopLive_spec` — the model meets it;
-* `evLoopLive_never_loops`, `fetches_le` — termination and the bound on the number of fetches for a
-  finite schedule of pushes; `evLoopLive_nil` — the frozen model is the empty schedule;
-* `liveBufs_ascending` — the buffers produced by the queue model are ascending.
-The final statements are in namespace `C14` at the end of the file.
+different one at every fetch (`respondLive`; `respondQ` takes the buffers from the queue model and the
+operations other tasks perform between the chunks).  Here:
+* `pass_split`, `pass_cursor_src`, `pass_frame` — what ONE fetch does, declaratively, on a buffer with
+  ascending event numbers: the events of the buffer that are selected and lie behind the cursor
+  (`pendingAt`) are split into the ones written (a prefix) and the ones still pending at the new cursor;
+* `FetchOk` / `LiveSpec` / `LiveEvents` — the specification of a whole live answer as a chain of such
+  fetches, written from the property text (per fetch, relative to the queue AT THAT FETCH), and its
+  consequences: `LiveSpec.increasing` (no duplicates), `FetchOk.sound`, `FetchOk.dichotomy`,
+  `LiveSpec.complete`, `LiveSpec.complete_from`, `LiveSpec.complete_new`, `LiveSpec.cursor_src`,
+  `LiveSpec.frozen` (unchanged queue: exactly the selected events of the snapshot);
+* `evLoopEnv_spec`, `evLoopEnv_inv`, `traceEnv_length`, `evLoopLive_eq_env` — the model meets it, keeps
+  the size invariants, and needs at most `#events written + 2` fetches;
+* `evLoopLive_err` — for a finite schedule the loop never runs out of fetches;
+* `evLoopLive_nil`, `eventSectionLive_nil`, `respondLive_nil` — the frozen model is the empty schedule;
+* `liveBufs_ascending`, `after_evolves` (`Queue.push_evolves`, `Queue.run_evolves`) — the buffers the
+  queue model produces ascend, and between two fetches the buffer `Evolves`: a sublist of the old one
+  followed by events with larger numbers.
+Final statements (namespace `C14`, end of the file): `GoodLive`, `respondLive_good`, `respondQ_good`,
+`live_no_duplicates`, `live_sound`, `live_complete_persistent`, `respondLive_never_loops`.
+
+**Termination needs a fairness assumption.**  A subscription report is bounded by the watermark captured
+when the report starts (`next_max_seen_event_number`): events pushed later are out of range, at most the
+events present at the start are reported.  A Read is created with `EventReader::new(0, u64::MAX, …)`
+(`im.rs`): every event pushed while the answer is sent is in range, and the code has no other bound.  If
+producers push at least one message-full of matching events during every round trip
+(`send` + `recv_status_success`), every fetch ends in `NoSpace` and the Read never ends
+(`C14.read_kept_alive_sample`).  The property's "never an endless chunk sequence" therefore holds under
+the assumption that only finitely many changes of the queue happen while one answer is sent — the
+schedule `later` is a finite list, after which the queue stays as it is.  Under it: `evLoopLive_err`,
+`respondLive_never_loops`, and the number of fetches is at most the number of events reported + 2
+(`LiveEvents`).
 -/
 namespace Chunk
 
@@ -1013,6 +1032,96 @@ theorem liveBufs_ascending (size : QEv → Nat) (sel : QEv → Bool) {q : Queue}
   rw [liveBufs_cons] at hb
   obtain ⟨q2, h2, rfl⟩ := List.mem_map.mp hb
   exact Queue.view_asc size sel (Queue.states_qinv sched q hq q2 h2) (hnw q2 h2)
+
+/-- **how the queue may change between two fetches**: some events are gone (evicted), the rest
+keep their order, the new ones follow and carry numbers larger than every number that was in the queue -/
+def Evolves (b b2 : List Ev) : Prop :=
+  ∃ kept new, b2 = kept ++ new ∧ kept.Sublist b ∧ ∀ x ∈ new, ∀ y ∈ b, y.num < x.num
+
+/-- what one `push` does to the iteration order: a sublist of the old one, followed by the new event
+(if it was stored) which carries the number `next_event_number` -/
+theorem Queue.push_evolves (q : Queue) (hq : QInv q) (prio len : Nat) (abort : Option Nat) :
+    ∃ kept new, (q.push prio len abort).1.iter = kept ++ new ∧ kept.Sublist q.iter ∧ ∀ x ∈ new, x.num = q.next := by
+  have hc1 : Caps { q.bumpNext with part := 0 } :=
+    ⟨by have := hq.caps.d; show qLen q.debug + 0 ≤ q.n; omega, hq.caps.i, hq.caps.c⟩
+  obtain ⟨k, hk⟩ : ∃ k, k = pushLen len abort := ⟨_, rfl⟩
+  obtain ⟨q2, r, h1, h2, h3, h4, h5⟩ := writeBytes_ok k _ hc1
+  have hsub : q2.iter.Sublist q.iter := h2.sub
+  have hnone : ∃ kept new, (iter { q2 with part := 0 }) = kept ++ new ∧ kept.Sublist q.iter ∧ ∀ x ∈ new, x.num = q.next :=
+    ⟨q2.iter, [], by simp [iter], hsub, by simp⟩
+  unfold push
+  simp only [← hk, h1]
+  rcases h4 with rfl | rfl
+  · simp only
+    by_cases hkl : k < len
+    · simp only [hkl, if_true]; exact hnone
+    · simp only [hkl, if_false]
+      by_cases hst : q2.part = len ∧ 0 < len
+      · simp only [hst, and_self, if_true]
+        exact ⟨q2.iter, [{ num := q.next, prio := prio, len := len }], by simp [iter], hsub, by simp⟩
+      · simp only [hst, if_false]; exact hnone
+  · simp only; exact hnone
+
+/-- a history of pushes (no reset, no load) that does not wrap the event number -/
+theorem Queue.run_evolves : ∀ (ops : List QOp) (q q2 : Queue), QInv q →
+    (∀ op ∈ ops, ∃ p l a, op = .push p l a) → q.run ops = some q2 → q2.wrapped = false →
+    q.wrapped = false ∧ q.next ≤ q2.next ∧
+      ∃ kept new, q2.iter = kept ++ new ∧ kept.Sublist q.iter ∧ ∀ x ∈ new, q.next ≤ x.num := by
+  intro ops
+  induction ops with
+  | nil =>
+    intro q q2 _ _ h hw
+    simp only [run, Option.some.injEq] at h
+    subst h
+    exact ⟨hw, Nat.le_refl _, q.iter, [], by simp, List.Sublist.refl _, by simp⟩
+  | cons op ops ih =>
+    intro q q2 hq hops h hw
+    obtain ⟨p, l, a, rfl⟩ := hops op (by simp)
+    obtain ⟨q1, res, g1, g2, g3, g4, g5, g6⟩ := push_ok q hq p l a
+    have hrun : q1.run ops = some q2 := by
+      simp only [run, g1] at h
+      cases res with
+      | ok v => exact h
+      | error e =>
+        cases e with
+        | panic w => exact absurd rfl (g3 w)
+        | resourceExhausted => exact h
+        | closure => exact h
+    obtain ⟨w1, n1, kept2, new2, e2, s2, b2⟩ := ih q1 q2 g2 (fun o ho => hops o (by simp [ho])) hrun hw
+    rw [g6] at w1
+    simp only [bumpNext, Bool.or_eq_false_iff, decide_eq_false_iff_not] at w1
+    have hn : q1.next = q.next + 1 := by rw [g5]; simp only [bumpNext]; rw [if_neg w1.2]
+    obtain ⟨kept1, new1, e1, s1, b1⟩ := Queue.push_evolves q hq p l a
+    rw [g1] at e1
+    simp only at e1
+    rw [e1] at s2
+    obtain ⟨ka, kb, rfl, ha, hb⟩ := List.sublist_append_iff.mp s2
+    refine ⟨w1.1, by omega, ka, kb ++ new2, by rw [e2, List.append_assoc], ha.trans s1, ?_⟩
+    intro x hx
+    rcases List.mem_append.mp hx with hx | hx
+    · have := b1 x (hb.subset hx); omega
+    · have := b2 x hx; omega
+
+/-- **between two fetches the buffer `Evolves`** when other tasks only push (no factory reset while the
+answer is sent) and the event number does not wrap: evicted events never come back, and every event
+pushed meanwhile is newer than everything the earlier fetch could see -/
+theorem after_evolves (size : QEv → Nat) (sel : QEv → Bool) {q : Queue} (hq : QInv q) (ops : List QOp)
+    (hops : ∀ op ∈ ops, ∃ p l a, op = .push p l a) (hw : (q.after ops).wrapped = false) :
+    Evolves (q.view size sel) ((q.after ops).view size sel) := by
+  obtain ⟨q2, h1, _⟩ := run_ok ops q hq
+  have ha : q.after ops = q2 := by simp only [Queue.after, h1, Option.getD_some]
+  rw [ha] at hw ⊢
+  obtain ⟨w0, _, kept, new, e, sk, hb⟩ := Queue.run_evolves ops q q2 hq hops h1 hw
+  let f : QEv → Ev := fun x => { num := x.num, size := size x, sel := sel x }
+  refine ⟨kept.map f, new.map f, by simp only [Queue.view, e, List.map_append, f], sk.map f, ?_⟩
+  intro x hx y hy
+  obtain ⟨x0, hx0, rfl⟩ := List.mem_map.mp hx
+  simp only [Queue.view, List.mem_map] at hy
+  obtain ⟨y0, hy0, rfl⟩ := hy
+  have := hb x0 hx0
+  have := hq.lt w0 y0 hy0
+  show y0.num < x0.num
+  omega
 
 end Chunk
 
